@@ -19,7 +19,7 @@ suite=$(cargo nextest run --workspace --no-fail-fast --offline --test-threads 8 
 git checkout -- .
 echo "$ID clean-demo: $clean_demo | mutated-demo: $mut_demo | suite-with-change: $suite"
 ok=no
-if echo "$clean_demo" | grep -q "test result: ok" && echo "$mut_demo" | grep -qE "FAILED|test failed" && echo "$suite" | grep -q "111 passed"; then ok=yes; fi
+if echo "$clean_demo" | grep -q "test result: ok" && echo "$mut_demo" | grep -qE "FAILED|test failed|could not compile .* \(test \"demo_seed\"\)" && echo "$suite" | grep -q "111 passed"; then ok=yes; fi
 D=/verif/seeded/$ID; mkdir -p $D
 cp "$SRC/patch.diff" $D/patch.diff; cp "$SRC/demo.rs" $D/demo.rs; cp "$SRC/notes.md" $D/notes.md 2>/dev/null
 python3 - "$D" "$ID" "$PROP" "$FEAT $XF" "$clean_demo" "$mut_demo" "$suite" "$ok" <<'PY'
